@@ -89,6 +89,27 @@ type omap interface {
 // the three keys of the exhaustive part include a control character (JSON must escape it as \u0001)
 var c19KeyNames = []string{"a", "\x01b", "c", `q"k`, "é\x7f", "", "z\n", "d"}
 
+// c19Universe is the number of keys compared after every operation: the first 8 names in the ordinary families,
+// all of them in the many-keys family.
+var c19Universe = 8
+
+const c19ManyKeys = 300
+
+func init() {
+	for i := 8; i < 8+c19ManyKeys; i++ {
+		name := "k" + strconv.Itoa(i)
+		switch i % 37 {
+		case 5:
+			name += "\x02"
+		case 11:
+			name += `"`
+		case 23:
+			name += "é😀"
+		}
+		c19KeyNames = append(c19KeyNames, name)
+	}
+}
+
 // --- RuleASTNodes
 type ruleMap struct{ m *schema.RuleASTNodes }
 
@@ -317,6 +338,12 @@ var c19Containers = []string{"schema.RuleASTNodes", "schema.ASTNodes", "ischema.
 // c19Apply runs one sequence on a fresh container and on the reference dict,
 // comparing the whole observable state after every operation.
 func c19Apply(r *mon.Run, cs c19Case) bool {
+	c19Universe = 8
+	for _, op := range cs.Ops {
+		if op.K >= 8 && op.K < len(c19KeyNames) {
+			c19Universe = len(c19KeyNames)
+		}
+	}
 	m := c19New(cs.Container)
 	d := newRefDict()
 	ok := true
@@ -430,7 +457,7 @@ func c19Compare(m omap, d *refDict) string {
 	if m.Len() != len(d.keys) {
 		return fmt.Sprintf("len: Len()=%d, reference has %d entries", m.Len(), len(d.keys))
 	}
-	nKeys := len(c19KeyNames)
+	nKeys := c19Universe
 	for k := 0; k < nKeys; k++ {
 		wv, wok := d.vals[k]
 		if m.Has(k) != wok {
@@ -646,6 +673,35 @@ func c19Run(r *mon.Run) {
 		}
 	}
 
+	// (2b) many keys: long sequences over 308 keys (string-keyed containers), sizes crossing 8 .. 256 entries
+	for i, nb := 0, r.Share(r.Pick(48, 1600)); i < nb; i++ {
+		ln := 200 + rng.IntN(700)
+		ops := make([]c19Op, ln)
+		grow := rng.IntN(3) != 0
+		for j := range ops {
+			o := c19Op{Op: "set", K: rng.IntN(len(c19KeyNames)), V: rng.IntN(1000), Arg: rng.IntN(6)}
+			switch x := rng.IntN(40); {
+			case x < 8 && !grow, x < 3:
+				o.Op = "delete"
+			case x < 11:
+				o.Op = "update"
+			case x == 11:
+				o.Op = "find"
+			case x == 12 && j > ln/2:
+				o.Op = []string{"filter", "map", "mapfail"}[rng.IntN(3)]
+				if o.Op == "mapfail" {
+					o.Arg = rng.IntN(300)
+				}
+			}
+			ops[j] = o
+		}
+		cn := c19Containers[rng.IntN(2)]
+		r.Eval(1)
+		c19Apply(r, c19Case{Container: cn, Ops: ops})
+		r.Nontrivial("many", cn, opsString(ops))
+		r.Count("many_keys_sequences", 1)
+	}
+
 	// (3) string sets: all constructor argument lists of length <= 3 over 3 names x all add lists of length <= 3
 	lists := [][]int{nil}
 	for l := 1; l <= 3; l++ {
@@ -695,7 +751,7 @@ func init() {
 				c19ApplySet(r, ss)
 			}
 		},
-		Rule:               "every sequence of <= L operations (L=4 quick, 5 thorough) over an alphabet of 21 operations {set/delete of 3 keys (one holds a control character), update, set-existing, 5 filter predicates, map, map with a callback that fails at its 1st / 2nd visit and hands back a value with the error, 2 find predicates, delete of a never-set key} is applied to a fresh RuleASTNodes, ASTNodes and Constraints container and to a reference insertion-ordered dict; Len/Has/Get/GetValue/Each/EachSafe/MarshalJSON are compared after every operation; plus random sequences of <= 40 operations over 7 keys (some need JSON escaping) and all StringSet constructor/Add lists of length <= 3 over 3 names. distinct_nontrivial = distinct operation sequences (hashed text), every one of which mutates or queries the container at least once.",
+		Rule:               "every sequence of <= L operations (L=4 quick, 5 thorough) over an alphabet of 21 operations {set/delete of 3 keys (one holds a control character), update, set-existing, 5 filter predicates, map, map with a callback that fails at its 1st / 2nd visit and hands back a value with the error, 2 find predicates, delete of a never-set key} is applied to a fresh RuleASTNodes, ASTNodes and Constraints container and to a reference insertion-ordered dict; Len/Has/Get/GetValue/Each/EachSafe/MarshalJSON are compared after every operation; plus random sequences of <= 40 operations over 7 keys (some need JSON escaping), sequences of 200-900 operations over 308 keys on the two string-keyed containers (sizes crossing 8..256 entries), and all StringSet constructor/Add lists of length <= 3 over 3 names. distinct_nontrivial = distinct operation sequences (hashed text), every one of which mutates or queries the container at least once.",
 		MinNontrivialQuick: 10000, MinNontrivialThorough: 100000,
 		Assumptions: []string{"reference model: 40-line insertion-ordered dict in harness/internal/props/c19.go", "encoding/json decides JSON validity and key order of MarshalJSON output",
 			"Constraints.MarshalJSON: the spelling of keys is not judged (documentation silent), only validity, entry count, uniqueness"},
